@@ -720,7 +720,7 @@ pub fn c07_def() -> HistProp {
             let quick = t == "quick";
             let mut v: Vec<(String, ScenMaker)> = Vec::new();
             for k in [VolKind::V16a, VolKind::V32a] {
-                let depth = if quick { 3 } else { 4 };
+                let depth = if quick { 4 } else { 5 };
                 let name = format!("matrix/{}-d{}", k.name(), depth);
                 let n2 = name.clone();
                 v.push((
